@@ -528,3 +528,16 @@ UNITS.append(Unit("util.yield_while_count_timeout", "ywc.c", defines=["U_YWC_TIM
     ], loops={1: LOOP_YWCT, "count": 1})},
     funcs=[TT_HPP + ": pika::util::detail::yield_while_count_timeout"], min_obligations=8,
     doc="I: true only after more than required_count consecutive false readings; false only after the time-out was seen"))
+
+
+# ---- ~partitioner (added by main after seeded change C05-9 was missed): the process-wide statics are given back at the end of an incarnation ----
+DP_CPP = "libs/pika/resource_partitioner/src/detail_partitioner.cpp"
+UNITS.append(Unit("rp.partitioner_dtor", "partitioner.c", enforce="partitioner_dtor",
+                  lifts={"body": Lift(DP_CPP, r"partitioner::~partitioner\(\)", rules=[
+                      Sub(r"(?:detail::)?init_pool_data::num_threads_overall", "num_threads_overall", None),
+                      Sub(r"--\s*instance_number_counter_", "atomic_dec_fetch_int(&instance_number_counter_)", None),
+                      Sub(r"\binstance_number_counter_\s*--", "atomic_fetch_dec_int(&instance_number_counter_)", None)])},
+                  funcs=[DP_CPP + ": resource::detail::partitioner::~partitioner"], min_obligations=3,
+                  doc="I: after the destructor of the only live partitioner the instance counter is back at -1 and no thread of the finished "
+                      "incarnation is accounted for (a restart with any configuration starts from zero)"))
+META["not_decided"] = list(META.get("not_decided", [])) + ["partitioner::partitioner / add_resource / setup_pools (the accounting of a NEW incarnation's threads) beyond the destructor's ledger"]
